@@ -3,11 +3,13 @@ SPECIFICATION Spec
 CONSTANTS
   N = 3
   Catalogue = "tiny"
-  Relations = {"none", "parent", "dep", "group"}
+  Relations = {"none", "parent", "dep", "group", "gd3"}
   MaxSet = 0
   MaxWrite = 1
   Validates = {FALSE}
   SetClass = "none"
+  MaxEdit = 0
+  MaxAssign = 0
   UpdEnabled = {TRUE}
   Deviations = {"EmptyStrAsNone", "InfTextAsFloat", "UuidTextAsId", "NoneMemberAsText", "IsValueFlipOnNone", "FileFormRejectsWorkspace", "GroupPropagation"}
 VIEW vw
